@@ -245,6 +245,11 @@ def _matrix_case(seed: int) -> Dict[str, Any]:
         t_end = max(e["ts"] + e.get("dur", 0) for e in per_rank[0] if "dur" in e and e.get("cat") != "Trace")
         for k in range(300):
             per_rank[0].append(synth.host_op(f"wide::op_{k:04d}", t_end + 10 + 3 * k, 2))
+    if seed % 2 == 1:
+        # a string that is an event NAME on one row and a CATEGORY on others (a user annotation called "kernel"): one symbol, one id
+        first = per_rank[0][0]
+        per_rank[0].append(synth.annotation("kernel", first["ts"] + 1, 2, tid=first["tid"]))
+        per_rank[0].append(synth.annotation("cpu_op", first["ts"] + 1, 1, tid=first["tid"]))
     # different vocabularies per rank
     for rk, evs in per_rank.items():
         for e in evs:
